@@ -2,7 +2,7 @@ SPECIFICATION Spec
 CONSTANTS
   K = 2
   T = 2
-  Deviations = {"ForgetsPersist", "PersistsBeforeStoring", "ClobbersOther", "StaleLive", "DestroysStored"}
+  Deviations = {"ForgetsPersist", "PersistsBeforeStoring", "StaleLive", "DestroysStored"}
   WithInvalid = TRUE
   TrackWant = FALSE
   WithHistory = FALSE
